@@ -798,12 +798,14 @@ class from_iterable(Source):
         super().__init__(**kwargs)
 
     async def run(self):
-        for x in self._iterable:
-            if self.stopped:
+        iterator = iter(self._iterable)
+        # test the flag before taking an item, so that a stop() never swallows one
+        while not self.stopped:
+            try:
+                x = next(iterator)
+            except StopIteration:
                 break
             await asyncio.gather(*self._emit(x))
-            if self.stopped:
-                break
         self.stopped = True
 
 
